@@ -853,3 +853,14 @@ func readServedByNonOwner(res *ChurnResult, read OpRec) (node, owner uint64, at 
 	}
 	return
 }
+
+// CheckResidue: after a hand-over nothing of a key may stay behind on the node that gave it away.
+func CheckResidue(res *ChurnResult) (findings []Finding) {
+	for i, r := range res.HiddenResidue {
+		if i >= 3 {
+			break
+		}
+		findings = append(findings, Finding{Key: "hidden-residue-after-hand-over", What: r, Witness: map[string]any{"all": res.HiddenResidue, "member_log": res.MemberLog}})
+	}
+	return
+}
